@@ -753,7 +753,9 @@ func (h *handler1) handleSubscribe(ctx context.Context, snSubscribe *snPkts1.Sub
 
 	mqSubscribe := mqPkts.NewControlPacket(mqPkts.Subscribe).(*mqPkts.SubscribePacket)
 	mqSubscribe.MessageID = snSubscribe.MessageID()
-	mqSubscribe.Dup = snSubscribe.DUP()
+	// The DUP flag of a retransmitted MQTT-SN SUBSCRIBE is not copied: bits 3-0
+	// of the MQTT 3.1.1 SUBSCRIBE fixed header are reserved (0010), a server
+	// must close the connection if it gets anything else [MQTT-3.8.1-1].
 	mqSubscribe.Qoss = []byte{snSubscribe.QOS}
 	mqSubscribe.Topics = []string{topic}
 	return h.mqttSend(mqSubscribe)
